@@ -285,6 +285,17 @@ def main(args):
         u = {'module': 'stdnum.gs1_128', 'ais': [(ai, props)], 'L': 0, 'variants': [0, 1, 2] if tier == 'quick' else list(range(12)),
              'max_paths': 200 if tier == 'quick' else 4000, 'timeout': 40 if tier == 'quick' else 600, 'options': {'ai': ai, 'format': props.get('format'), 'type': props.get('type')}}
         units.append(u)
+    # every identifier followed by an early (21) and, for variable-length ones, a late variable-length identifier: encode()
+    # sorts identifiers, so only a later identifier makes the first one the padded / separated value
+    ok = [e for e in entries if parse_format(e[1].get('format', '')) is not None]
+    follower = [e for e in entries if e[0] == '21'][0]
+    late = max((e for e in ok if e[1].get('fnc1') and e[1].get('type', 'str') == 'str'), key=lambda e: e[0])
+    fcap = dict(max_paths=150, timeout=30) if tier == 'quick' else dict(max_paths=3000, timeout=300)
+    for e in ok:
+        if e[0] != '21':
+            units.append(dict({'module': 'stdnum.gs1_128', 'ais': [e, follower], 'L': 0, 'variants': [2, 0], 'options': {'ai': e[0] + '+21'}}, **fcap))
+        if e[1].get('fnc1') and e[0] != late[0]:
+            units.append(dict({'module': 'stdnum.gs1_128', 'ais': [e, late], 'L': 0, 'variants': [2, 0], 'options': {'ai': e[0] + '+' + late[0]}}, **fcap))
     if tier != 'quick':
         import random
         rnd = random.Random(common.seed())
@@ -295,11 +306,6 @@ def main(args):
     else:
         import random
         rnd = random.Random(common.seed())
-        ok = [e for e in entries if parse_format(e[1].get('format', '')) is not None]
-        follower = [e for e in entries if e[0] == '21'][0]
-        for e in ok:
-            if e[0] != '21':
-                units.append({'module': 'stdnum.gs1_128', 'ais': [e, follower], 'L': 0, 'variants': [2, 0], 'max_paths': 150, 'timeout': 30, 'options': {'ai': e[0] + '+21'}})
         varl = [e for e in ok if e[1].get('fnc1')]
         for _ in range(16):
             tri = sorted(rnd.sample(varl, 3), key=lambda e: e[0])
